@@ -166,7 +166,7 @@ func kafkaObserveChunks(cchunks, schunks [][]byte) sx.Sx {
 			items = append(items, sx.A("bad-details"))
 			continue
 		}
-		if it.Pair.Request.CaptureSize != int(req.Size) || it.Pair.Response.CaptureSize != int(resp.Size) || qw.Method != req.ApiKeyName {
+		if it.Pair.Request.CaptureSize != int(req.Size)+4 || it.Pair.Response.CaptureSize != int(resp.Size)+4 || qw.Method != req.ApiKeyName { // capture size = message + its 4-byte size prefix
 			items = append(items, sx.A("inconsistent-item"))
 			continue
 		}
